@@ -46,6 +46,9 @@ CONSTANTS MaxR,        \* rounds 1..MaxR
           Mode,        \* "M": exhaustive check with a guessed target; "G": behaviour generation; "GV": one behaviour per state
           MaxOps,      \* mode G: length of the generated behaviours
           GVAfter,     \* mode GV: behaviours with at most GVAfter events after the restart
+          StepSet,     \* steps the environment delivers inside a (round, index): {2, 4, 5}, or {4} for the next-index-only alphabet
+          Back,        \* TRUE: the engine may also re-enter an EARLIER (round, index) without a restart: Server.Resume() after a
+                       \* sync (StartNewRound(true) puts the index back to 1) or a stale ContextChangeEvent delivered late (AsyncPost)
           Weaken       \* TRUE: the invariants tolerate the classes listed as known findings
 
 Kinds == {"Prevote", "Precommit", "Next", "Cert"}
@@ -74,6 +77,7 @@ Fresh(disk) == [ r |-> 0, i |-> 0, step |-> 0, cert |-> FALSE,           \* Vote
                  cur |-> Nil, nm |-> Nil, nv |-> Nil,                      \* curMarked, nextMarked, nextVoted (block hash)
                  over |-> {},                                              \* voteOver (only what the switch reads)
                  q |-> {},                                                 \* <<kind, block>> with a counted quorum in the current wrapper
+                 qold |-> [c \in (1..MaxR) \X (1..MaxI) |-> {}],            \* the wrappers of the contexts left (VotesWrapperList keeps them)
                  dbR |-> 0, dbI |-> 0, mark |-> ZeroMark,                  \* VoteDB.round/roundIndex/mark
                  disk |-> disk, out |-> <<>> ]
 
@@ -154,7 +158,9 @@ SetMarked(v, b) ==
 UpdateCtxC(v, rr, ii, st, best, c) ==
    LET v1 == IF v.r # rr \/ v.i # ii
              THEN [v EXCEPT !.pc = FALSE, !.cm = FALSE, !.sc = FALSE, !.cd = FALSE,
-                            !.cur = IF ii = 1 THEN Nil ELSE v.nv, !.nm = Nil, !.nv = Nil, !.over = {}, !.q = {}]
+                            !.cur = IF ii = 1 THEN Nil ELSE v.nv, !.nm = Nil, !.nv = Nil, !.over = {},
+                            !.q = v.qold[<<rr, ii>>],                       \* NewWrapper returns the old wrapper of a context visited before
+                            !.qold = IF v.r = 0 \/ ~Back THEN @ ELSE [@ EXCEPT ![<<v.r, v.i>>] = v.q]]   \* (only read when contexts can recur)
              ELSE v
        v2 == DbCtx([v1 EXCEPT !.r = rr, !.i = ii, !.step = st, !.cert = c], rr, ii)
    IN CASE st = 2 -> IF v2.cur # Nil /\ v2.cur # E THEN Vote(v2, "Prevote", v2.cur).s
@@ -178,7 +184,7 @@ TgtBlocks(o) == { o[n].b : n \in { m \in DOMAIN o : o[m].t = "P" /\ o[m].k = tgt
 Cuts(o) == { p \in 0..(Len(o) - 1) : IF p = 0 THEN o[1].t = "W" ELSE o[p].t \in {"W", "P"} }
 Dead(disk) == Fresh(disk)
 
-Tick(recs) == /\ (Mode = "G" => Len(hist) < MaxOps)
+Tick(recs) == /\ (Mode \in {"G", "GA"} => Len(hist) < MaxOps)
               /\ hist' = hist \o recs
 Max(a, b) == IF a < b THEN b ELSE a
 MaxC(a, b) == IF Lt(a, b) THEN b ELSE a
@@ -209,10 +215,13 @@ Run(v2, rec) == Finish(v2, rec) \/ \E p \in Cuts(v2.out) : CrashIn(v2, rec, p)
 \* the node is not selected is the same as a skipped step); a new index of the same round or index 1 of a later
 \* round starts at step 0.
 CtxArgs == { [r |-> s.r, i |-> s.i, st |-> st, best |-> b] :
-                 st \in { x \in {2, 4, 5} : x > s.step },
+                 st \in { x \in StepSet : x > s.step },
                  b \in Blocks \cup {Nil} }
            \cup { [r |-> s.r, i |-> ii, st |-> 0, best |-> Nil] : ii \in (s.i + 1)..MaxI }
            \cup { [r |-> rr, i |-> 1, st |-> 0, best |-> Nil] : rr \in (s.r + 1)..MaxR }
+           \cup (IF Back THEN { [r |-> s.r, i |-> ii, st |-> 0, best |-> Nil] : ii \in 1..(s.i - 1) }         \* Resume / stale event
+                               \cup { [r |-> rr, i |-> ii, st |-> 0, best |-> Nil] : rr \in 1..(s.r - 1), ii \in 1..MaxI }
+                  ELSE {})
 \* canonical `best`: only step 2 without a locked block reads it
 CtxOK(a) == IF a.st = 2 /\ (s.cur = Nil \/ s.cur = E) THEN a.best # Nil ELSE a.best = Nil
 
@@ -280,7 +289,9 @@ AtMostTwoNext  == Holds("Next", "AtMostTwoNext")
 DiskSane == \A f \in DOMAIN s.disk : s.disk[f] = None \/ (s.disk[f][1] \in 1..MaxR /\ s.disk[f][2] \in 1..MaxI)
 
 (***************************** generation *****************************)
-Leaf == (Mode = "G" /\ Len(hist) >= MaxOps) => PrintT("@@J " \o ToJson([kind |-> "B", h |-> hist]))
+\* Mode "GA": like "G", but every behaviour up to the length is printed (the wrapper keeps the ones that are not a prefix of
+\* another): for alphabets whose behaviours end before the length (crash budget used up)
+Leaf == ((Mode = "G" /\ Len(hist) >= MaxOps) \/ (Mode = "GA" /\ Len(hist) >= 3)) => PrintT("@@J " \o ToJson([kind |-> "B", h |-> hist]))
 \* Mode "GV": breadth-first search over the VIEW (states, not behaviours, are distinct); used as an INVARIANT, which TLC
 \* evaluates once per distinct state: one (shortest) behaviour into every distinct state in which the restarted node has
 \* just processed an event that can make it vote -- every reachable combination of disk records and restarted memory
